@@ -1,0 +1,58 @@
+//go:build verif
+
+package tls
+
+// Verification hooks for property C30 (handshake message / session state
+// codecs).  The harness fills and inspects the returned values through
+// reflection; nothing is mirrored here.
+
+var verifC30Kinds = []struct {
+	name string
+	mk   func() handshakeMessage
+}{
+	{"clientHelloMsg", func() handshakeMessage { return new(clientHelloMsg) }},
+	{"serverHelloMsg", func() handshakeMessage { return new(serverHelloMsg) }},
+	{"encryptedExtensionsMsg", func() handshakeMessage { return new(encryptedExtensionsMsg) }},
+	{"endOfEarlyDataMsg", func() handshakeMessage { return new(endOfEarlyDataMsg) }},
+	{"keyUpdateMsg", func() handshakeMessage { return new(keyUpdateMsg) }},
+	{"newSessionTicketMsgTLS13", func() handshakeMessage { return new(newSessionTicketMsgTLS13) }},
+	{"certificateRequestMsgTLS13", func() handshakeMessage { return new(certificateRequestMsgTLS13) }},
+	{"certificateMsg", func() handshakeMessage { return new(certificateMsg) }},
+	{"certificateMsgTLS13", func() handshakeMessage { return new(certificateMsgTLS13) }},
+	{"serverKeyExchangeMsg", func() handshakeMessage { return new(serverKeyExchangeMsg) }},
+	{"certificateStatusMsg", func() handshakeMessage { return new(certificateStatusMsg) }},
+	{"serverHelloDoneMsg", func() handshakeMessage { return new(serverHelloDoneMsg) }},
+	{"clientKeyExchangeMsg", func() handshakeMessage { return new(clientKeyExchangeMsg) }},
+	{"finishedMsg", func() handshakeMessage { return new(finishedMsg) }},
+	{"certificateRequestMsg", func() handshakeMessage { return new(certificateRequestMsg) }},
+	{"certificateVerifyMsg", func() handshakeMessage { return new(certificateVerifyMsg) }},
+	{"newSessionTicketMsg", func() handshakeMessage { return new(newSessionTicketMsg) }},
+	{"helloRequestMsg", func() handshakeMessage { return new(helloRequestMsg) }},
+	{"sessionState", func() handshakeMessage { return new(sessionState) }},
+	{"sessionStateTLS13", func() handshakeMessage { return new(sessionStateTLS13) }},
+}
+
+// VerifC30Kinds lists the message / session-state types that have a codec.
+func VerifC30Kinds() []string {
+	var out []string
+	for _, k := range verifC30Kinds {
+		out = append(out, k.name)
+	}
+	return out
+}
+
+// VerifC30New returns a pointer to a fresh zero value of the named type.
+func VerifC30New(kind string) any {
+	for _, k := range verifC30Kinds {
+		if k.name == kind {
+			return k.mk()
+		}
+	}
+	return nil
+}
+
+// VerifC30Marshal calls m.marshal().
+func VerifC30Marshal(m any) []byte { return m.(handshakeMessage).marshal() }
+
+// VerifC30Unmarshal calls m.unmarshal(data).
+func VerifC30Unmarshal(m any, data []byte) bool { return m.(handshakeMessage).unmarshal(data) }
